@@ -17,8 +17,11 @@ Rec     == ndJsonDeserialize(IOEnv.TRACE)
 DictIn  == JsonDeserialize(IOEnv.DICT)
 Vals    == JsonDeserialize(IOEnv.VALUES)
 
-VARIABLES st, l, skip, cyc
-vars == <<st, l, skip, cyc>>
+VARIABLES st, l, skip, cyc, devmode
+vars == <<st, l, skip, cyc, devmode>>
+(* devmode: the history runs on an image that carries a tolerated deviation (opened permissively).  *)
+(* The deviation stays in the file, so strict reopen and WF are not expected afterwards; the         *)
+(* library's live view and the permissive reopen must still equal the model after every mutation.   *)
 (* cyc: bookkeeping for C15 - the tree at the start of the repetitions and   *)
 (* the file length after each repetition of a net-zero cycle.               *)
 NoCyc == [based |-> FALSE, base |-> EmptyTree, flens |-> <<>>]
@@ -62,6 +65,7 @@ Apply(s, e) ==
     [] e.op = "h_len"              -> HLen(s, e.h)
     [] e.op = "h_set_len"          -> HSetLen(s, e.h, e.n)
     [] e.op = "h_close"            -> HClose(s, e.h)
+    [] e.op = "deviate"            -> {OkV(s, "unit")}    \* a deviation patched into a COPY of the bytes
 
 EntryMatch(mv, rv) ==
   /\ AllKnown(rv.p) /\ KeyPath(rv.p) = KeyPath(mv.p)
@@ -135,6 +139,16 @@ HeavyChecks(s1, s2, e) ==
 LightChecks(s2, e) ==
   << <<"C10", "bytes-unchanged",
         (IsRefusal(e) /\ Has(e, "imghash") /\ PrevHash(e) # "?") => e.imghash = PrevHash(e), FALSE>> >>
+  \o (IF Has(e, "dev")        \* C16: deviations that need a DIFAT sector (drive op "deviate")
+      THEN IF e.kind = "difat_relocate"      \* a legal layout (C04): both modes expose the content
+           THEN << <<"C04", "dev.permissive:" \o e.kind,
+                      Has(e.dev.permissive, "ok") /\ e.dev.permissive.ok.walk = WalkDump(s2.tree), FALSE>>,
+                   <<"C04", "dev.strict:" \o e.kind,
+                      Has(e.dev.strict, "ok") /\ e.dev.strict.ok.walk = WalkDump(s2.tree), FALSE>> >>
+           ELSE << <<"C16", "dev.permissive:" \o e.kind,
+                      Has(e.dev.permissive, "ok") /\ e.dev.permissive.ok.walk = WalkDump(s2.tree), FALSE>>,
+                   <<"C16", "dev.strict-rejects:" \o e.kind, Has(e.dev.strict, "err"), FALSE>> >>
+      ELSE <<>>)
   \o (IF Has(e, "mark") /\ e.mark = "rep_end" /\ cyc.based
       THEN << <<"GEN", "cycle-not-net-zero", s2.tree = cyc.base, FALSE>>,
               <<"C15", "no-growth",
@@ -146,6 +160,13 @@ CycNext(s2, e) ==
   ELSE IF e.mark = "rep_end" THEN [cyc EXCEPT !.flens = Append(@, e.flen)]
   ELSE cyc
 
+DevHeavyChecks(s2, e) ==
+  LET t == s2.tree IN
+  << <<"C01", "api.walk", ApiOK(e) /\ e.api.walk = WalkDump(t), TRUE>>,
+     <<"C02", "reopen.permissive",
+        Has(e, "reopen") => (ReopenOK(e, "permissive") /\ e.reopen.permissive.ok.walk = WalkDump(t)), TRUE>> >>
+
+HChecks(s1, s2, e) == IF devmode THEN DevHeavyChecks(s2, e) ELSE HeavyChecks(s1, s2, e)
 Failed(cs)   == SelectSeq(cs, LAMBDA c : ~c[3])
 AnyFatal(cs) == \E i \in 1..Len(cs) : ~cs[i][3] /\ cs[i][4]
 Report(cs, e) == \A i \in 1..Len(cs) : IF cs[i][3] THEN TRUE ELSE Fail(cs[i][1], cs[i][2], e)
@@ -158,7 +179,7 @@ FromWalk(w) ==
      [kind |-> r.k, name |-> r.n, data |-> r.d, clsid |-> r.c, bits |-> r.b,
       ct |-> r.ct, mt |-> r.mt]]
 
-Init == st = InitState /\ l = 1 /\ skip = FALSE /\ cyc = NoCyc
+Init == st = InitState /\ l = 1 /\ skip = FALSE /\ cyc = NoCyc /\ devmode = FALSE
 
 (* An image carrying one of the documented, tolerated deviations (C16):      *)
 (* permissive open succeeds and exposes the content of the undamaged file,  *)
@@ -177,12 +198,12 @@ ResetStep(e) ==
       dev == Has(e, "expect") /\ e.expect = "deviation"
       cs == IF dev THEN DeviationChecks(s0.tree, e)
             ELSE IF okres /\ e.heavy THEN HeavyChecks(s0, s0, [e EXCEPT !.res = [k |-> "ok", v |-> "unit"]] @@ [op |-> "reset"]) ELSE <<>>
-  IN /\ st' = s0 /\ cyc' = NoCyc
+  IN /\ st' = s0 /\ cyc' = NoCyc /\ devmode' = dev
      /\ (IF okres \/ dev THEN TRUE ELSE Fail("OPEN", e.res.k, e))
      /\ Report(cs, e)
      /\ skip' = (~okres \/ AnyFatal(cs))
 
-OpStep(e) ==
+OpStep2(e) ==
   IF skip THEN UNCHANGED <<st, skip, cyc>>
   ELSE
   LET outs  == Apply(st, e)
@@ -201,12 +222,14 @@ OpStep(e) ==
             /\ st' = s2 /\ skip' = FALSE /\ cyc' = CycNext(s2, e)
   ELSE
   LET pick == IF Cardinality(match) = 1 THEN CHOOSE o \in match : TRUE
-              ELSE LET good == {o \in match : ~AnyFatal(HeavyChecks(st, o.st, e))} IN
+              ELSE LET good == {o \in match : ~AnyFatal(HChecks(st, o.st, e))} IN
                    IF good # {} THEN CHOOSE o \in good : TRUE ELSE CHOOSE o \in match : TRUE
-      cs   == HeavyChecks(st, pick.st, e) \o LightChecks(pick.st, e)
+      cs   == HChecks(st, pick.st, e) \o LightChecks(pick.st, e)
   IN /\ Report(cs, e)
      /\ st' = pick.st /\ cyc' = CycNext(pick.st, e)
      /\ skip' = AnyFatal(cs)
+
+OpStep(e) == UNCHANGED devmode /\ OpStep2(e)
 
 Step ==
   /\ l <= Len(Rec)
